@@ -31,7 +31,7 @@ RULE = (
     "with two values used in the body, identifiers independently drawn in lower / UPPER / Title / MiXeD case; every "
     "sixth program has two parameters equal up to case; every transaction has one parameter used exactly once, at a "
     "position that rotates over map key, map value, list element, record field, metadata key and value, validity "
-    "bounds, mint amount and redeemer, withdrawal amount and redeemer, an output of its own; plus the reproduced "
+    "bounds, mint amount and redeemer, withdrawal amount and redeemer, an output of its own, the min_amount and the redeemer of a second input pinned by ref, a collateral block, a burn, a treasury donation, a second input; plus the reproduced "
     "corpus case tx t(Qty: Int); every transaction of every emitted file is also resolved the way a client would: "
     "exactly the declared keys through parse_resolve_request, then apply_args; a third of the programs name the single-use parameter of their first transaction after a built-in symbol (fees, min_utxo, tip_slot, ...) or another name harvested from the source's string literals (kept when the front end accepts the program). "
     "Non-trivial = every case; distinct = distinct program text"
